@@ -180,17 +180,55 @@ func typedMap(k, v typed, min, max *int64) (typed, bool) {
 
 // Units builds a fresh units definition (the lazily built caches of the built-in ones must not
 // leak between cases).
-func Units(id string) (*schema.UnitsDefinition, error) {
+func builtinUnits(id string) *schema.UnitsDefinition {
 	switch id {
 	case "sec":
-		b := schema.UnitDurationSeconds
-		m := map[int64]*schema.UnitDefinition{}
-		for k, u := range b.MultipliersValue {
-			m[k] = u
-		}
-		return schema.NewUnits(b.BaseUnitValue, m), nil
+		return schema.UnitDurationSeconds
+	case "bytes":
+		return schema.UnitBytes
+	case "nanos":
+		return schema.UnitDurationNanoseconds
 	}
-	return nil, fmt.Errorf("unknown units id %q", id)
+	return nil
+}
+
+func Units(id string) (*schema.UnitsDefinition, error) {
+	b := builtinUnits(id)
+	if b == nil {
+		return nil, fmt.Errorf("unknown units id %q", id)
+	}
+	m := map[int64]*schema.UnitDefinition{}
+	for k, u := range b.MultipliersValue {
+		m[k] = u
+	}
+	return schema.NewUnits(b.BaseUnitValue, m), nil
+}
+
+// CheckUnitSets verifies the independent copies of the built-in unit sets (multipliers and names) against
+// the real definitions.
+func CheckUnitSets() error {
+	for _, set := range UnitSets {
+		u := builtinUnits(set.ID)
+		if u == nil || len(u.MultipliersValue)+1 != len(set.Mults) {
+			return fmt.Errorf("unit set %s: number of multipliers differs from the SDK's", set.ID)
+		}
+		for i, m := range set.Mults {
+			d := u.BaseUnitValue
+			if m != 1 {
+				var ok bool
+				if d, ok = u.MultipliersValue[m]; !ok {
+					return fmt.Errorf("unit set %s: the SDK has no multiplier %d", set.ID, m)
+				}
+			}
+			got := []string{d.NameShortSingular(), d.NameShortPlural(), d.NameLongSingular(), d.NameLongPlural()}
+			for j := range got {
+				if got[j] != set.Names[i][j] {
+					return fmt.Errorf("unit set %s x%d is named %v in the SDK, %v in the harness", set.ID, m, got, set.Names[i])
+				}
+			}
+		}
+	}
+	return nil
 }
 
 // CheckSecUnits verifies that the real second based unit set has the multipliers and the
